@@ -82,7 +82,7 @@ func (db *DB) Merge() error {
 		logRecordHeader: make([]byte, datafile.MaxLogRecordHeaderSize),
 	}
 	if err := mergeDB.setActiveFile(); err != nil {
-		return nil
+		return err
 	}
 
 	// 在 merge 临时目录创建并打开 hint 索引文件
